@@ -17,6 +17,17 @@ import itertools
 NESTS = [n for k in (1, 2, 3) for n in itertools.product(LAYERS, repeat=k)]
 
 
+def perturb(node, k):
+    """The same expression with every real leaf tensor shifted by k/4 (new arrays, new values)."""
+    if not isinstance(node, tuple):
+        return node
+    if node and node[0] == "ten" and node[3] == "real":
+        return node[:4] + (tuple(v + 0.25 * k for v in node[4]),) + node[5:]
+    if node and isinstance(node[0], str) and node[0] in ("num", "var", "slice", "gauss"):
+        return node
+    return tuple(perturb(c, k) for c in node)
+
+
 def same_funsor(a, b):
     """Structural value equality of two evaluated funsors."""
     from funsor.tensor import Tensor
@@ -75,6 +86,30 @@ class C03(Prop):
         for c in ast_shrinks(case["ast"]):
             yield dict(case, ast=c)
 
+    def extra(self, tier, shard, nshards, stt, seed):
+        """Small-scope enumeration: every chain of 2 constructor templates under each single deferring layer."""
+        from vf.gen import N_CHAIN_STEPS, chain_ast
+
+        n2 = N_CHAIN_STEPS ** 2
+        layers = [("normalize",), ("lazy",), ("reflect",), ("sequential",)] if tier == "quick" else [(l,) for l in LAYERS]
+        k = 0
+        for idx in range(n2):
+            for nest in layers:
+                k += 1
+                if k % nshards != shard:
+                    continue
+                case = {"ast": chain_ast(idx, 2), "nest": nest}
+                stt.evaluations += 1
+                try:
+                    self.check(case, stt)
+                except Decline as d:
+                    stt.decline(d.bucket)
+                except Violation as v:
+                    sig = v.bucket + "|chain|" + self.signature(case)
+                    if not any(x["bucket"] == sig for x in stt.violations) and len(stt.violations) < 6:
+                        stt.violations.append(dict(bucket=sig, message=v.message, case=case))
+        stt.notes["max_chain2_enumerated"] = n2
+
     def check(self, case, stt):
         import contextlib
 
@@ -128,6 +163,45 @@ class C03(Prop):
             raise
         except Exception as e:
             raise Decline("nested-build-raised:" + innermost_funsor_frame(e))
+
+        # a cache dict shared by several memoize blocks, with the operands of earlier blocks dropped and
+        # collected in between: a later block must never receive a result computed for different arguments
+        if "memoize" in nest and any(n[0] == "ten" and n[3] == "real" for n in walk(node)):
+            import gc
+
+            shared = {}
+            for round_ in range(3):
+                variant = perturb(node, round_)
+                from vf.build import Leaves
+
+                lv = Leaves()
+                # operands are created by the caller outside the memoize block (and dropped after the round)
+                lv.prebuilt = {}
+                for n_ in walk(variant):
+                    if n_[0] == "ten" and id(n_) not in lv.prebuilt:
+                        lv.prebuilt[id(n_)] = build(n_)
+                try:
+                    with contextlib.ExitStack() as stack:
+                        for name in nest:
+                            if name == "memoize":
+                                stack.enter_context(I.memoize(shared))
+                            else:
+                                stack.enter_context(getattr(I, name))
+                        fv = build(variant, lv)
+                    if not isinstance(fv, (Tensor, Number)):
+                        fv = interpreter.reinterpret(fv)
+                except Exception as e:
+                    stt.decline("shared-cache-build-raised:" + innermost_funsor_frame(e))
+                    break
+                try:
+                    evaluate_against_oracle(variant, fv, stt, "memoize-shared-cache")
+                except Decline as d:
+                    stt.decline("shared-cache:" + d.bucket)
+                    break
+                fv = lv = None
+                gc.collect()
+            stt.count("shared-cache-rounds")
+            shared.clear()
 
         was_lazy = not isinstance(fd, (Tensor, Number))
         results = [("direct", fd)]
